@@ -9,9 +9,10 @@ W=3; TIER=quick; EXTRA=""
 while getopts "w:t:x:" o; do case $o in w) W=$OPTARG;; t) TIER=$OPTARG;; x) EXTRA=$OPTARG;; esac; done
 shift $((OPTIND-1))
 IDS=("$@")
-if [ ${#IDS[@]} -eq 0 ]; then IDS=($(cd /verif/seeded && ls -d */ | tr -d /)); fi
+SD=${SEEDED_DIR:-/verif/seeded}   # SEEDED_DIR=/verif/refactors runs the behaviour-preserving changes (expected: exit 0)
+if [ ${#IDS[@]} -eq 0 ]; then IDS=($(cd $SD && ls -d */ | tr -d /)); fi
 export CARGO_NET_OFFLINE=true
-OUT=/verif/seeded/MATRIX.txt
+OUT=$SD/MATRIX.txt
 setup() { # worker k
   local k=$1 d=/tmp/mw$1
   rm -rf $d; mkdir -p $d
@@ -26,7 +27,7 @@ worker() {
   local d=/tmp/mw$k
   setup $k || { echo "worker $k setup failed"; return; }
   for id in "$@"; do
-    local m=/verif/seeded/$id
+    local m=$SD/$id
     [ -f $m/patch.diff ] || continue
     local prop=$(python3 -c "import json;print(json.load(open('$m/meta.json'))['property'])")
     git -C $d/repo checkout -q -- . ; git -C $d/repo apply $m/patch.diff || { echo "$id - PATCH-DOES-NOT-APPLY" >> $OUT; continue; }
